@@ -55,6 +55,70 @@ def correspond(ctx):
             ctx.violation("tss-cap", f"two_site_svd kept {i} > max_bond_dim={c['maxb']}", {"oracle": "tss", **c, "kept": i})
 
 
+    truncate_correspondence(ctx)
+
+
+def truncate_trace(L, chi, center, thr, cap, seed):
+    """Which (flipped?, i) pairs does the real MPS.truncate hand to two_site_svd?"""
+    import mqt.yaqs.core.data_structures.networks as N
+
+    rng = np.random.default_rng(seed)
+    tens = []
+    for i in range(L):
+        lft = 1 if i == 0 else chi
+        r = 1 if i == L - 1 else chi
+        tens.append(rng.normal(size=(2, lft, r)) + 1j * rng.normal(size=(2, lft, r)))
+    mps = N.MPS(L, tensors=tens, physical_dimensions=[2] * L)
+    mps.normalize("B")
+    mps.set_canonical_form(center)
+    center_seen = int(mps.check_canonical_form()[0])  # what truncate itself will read (0 for product states)
+    calls, flips = [], [0]
+    real_svd, real_flip = N.two_site_svd, N.MPS.flip_network
+
+    def svd(a, b, threshold, max_bond_dim=None):
+        idx = [k for k, t in enumerate(mps.tensors) if t is a]
+        calls.append((bool(flips[0] % 2), idx[0] if idx else -1, threshold, max_bond_dim))
+        return real_svd(a, b, threshold, max_bond_dim)
+
+    def flip(self):
+        if self is mps:
+            flips[0] += 1
+        return real_flip(self)
+
+    N.two_site_svd, N.MPS.flip_network = svd, flip
+    try:
+        mps.truncate(threshold=thr, max_bond_dim=cap)
+    finally:
+        N.two_site_svd, N.MPS.flip_network = real_svd, real_flip
+    return calls, [int(t.shape[2]) for t in mps.tensors[:-1]], center_seen
+
+
+def truncate_correspondence(ctx):
+    cases, exprs, impl = [], [], []
+    for i in range(ctx.scale(60, 800)):
+        L = int(ctx.rng.integers(1, 7))
+        c = int(ctx.rng.integers(0, L))
+        thr = float(ctx.rng.choice([0.0, 0.0, 1e-12, 1e-6, 0.3]))
+        cap = None if ctx.rng.random() < 0.3 else int(ctx.rng.integers(1, 5))
+        chi = int(ctx.rng.integers(1, 6))
+        calls, bonds, c_seen = truncate_trace(L, chi, c, thr, cap, int(ctx.rng.integers(0, 2**31)))
+        impl.append((calls, bonds))
+        exprs.append(f"truncate_calls {L}%nat {c_seen}%nat")
+        cases.append(dict(L=L, center=c, thr=thr, cap=cap, chi=chi))
+    vals = common.coq_eval_sharded(ranksel.HEADER, exprs, tag="trunc")
+    for cse, (calls, bonds), m in zip(cases, impl, vals):
+        ctx.case(nontrivial_key=("truncate", cse["L"], cse["center"], cse["thr"], cse["cap"]) if cse["L"] > 2 else None, validated=True)
+        ctx.count("truncate_trace")
+        got = [(f, i) for (f, i, _, _) in calls]
+        if got != [tuple(x) for x in m]:
+            ctx.mismatch("MPS.truncate sweep vs RankSelect.truncate_calls", cse, got, m)
+        if any(t != cse["thr"] or mb != cse["cap"] for (_, _, t, mb) in calls):
+            ctx.mismatch("MPS.truncate passes its threshold/cap to two_site_svd", cse, calls, "(threshold, cap) unchanged")
+        if cse["cap"] is not None and bonds and max(bonds) > cse["cap"]:
+            ctx.violation("truncate-cap", f"MPS.truncate(threshold={cse['thr']}, max_bond_dim={cse['cap']}) left bonds {bonds}",
+                          {"oracle": "truncate", **cse})
+
+
 # ---------------------------------------------------------------------------------------------------------
 def bonds_of(state):
     return [int(t.shape[2]) for t in state.tensors[:-1]]
@@ -95,7 +159,7 @@ def run_digital(cap, mode, seed, n=4, depth=6, noisy=False, minb=2):
     return worst
 
 
-def run_analog(cap, mode, seed, L=4, order=2, noisy=False, minb=2):
+def run_analog(cap, mode, seed, L=4, order=2, noisy=False, minb=2, bug=False, thr=None):
     from mqt.yaqs import simulator
     from mqt.yaqs.core.data_structures.networks import MPO, MPS
     from mqt.yaqs.core.data_structures.noise_model import NoiseModel
@@ -106,10 +170,13 @@ def run_analog(cap, mode, seed, L=4, order=2, noisy=False, minb=2):
     if noisy:
         nm = NoiseModel([{"name": "crosstalk_xy", "sites": [1, 2], "strength": 0.4},
                          {"name": "pauli_z", "sites": [0], "strength": 0.2}])
-    thr = 1e-9 if mode == "discarded_weight" else 1e-6
+    from mqt.yaqs.core.data_structures.simulation_parameters import EvolutionMode
+
+    if thr is None:
+        thr = 1e-9 if mode == "discarded_weight" else 1e-6
     p = AnalogSimParams(obs, elapsed_time=0.6, dt=0.1, num_traj=2 if noisy else 1, max_bond_dim=cap, min_bond_dim=minb,
                         trunc_mode=mode, threshold=thr, order=order, sample_timesteps=True, get_state=not noisy,
-                        show_progress=False)
+                        show_progress=False, evolution_mode=EvolutionMode.BUG if bug else EvolutionMode.TDVP)
     H = MPO.ising(L, 1.0, 0.7 + 0.01 * (seed % 7))
     st = MPS(L, state="x+" if seed % 2 else "Neel")
     simulator.run(st, H, p, nm, parallel=False)
@@ -119,11 +186,11 @@ def run_analog(cap, mode, seed, L=4, order=2, noisy=False, minb=2):
     return worst
 
 
-def whole_run(kind, cap, mode, seed, noisy, minb=2):
+def whole_run(kind, cap, mode, seed, noisy, minb=2, bug=False, thr=None):
     with common.time_limit(240):
         if kind == "digital":
             return run_digital(cap, mode, seed, noisy=noisy, minb=minb)
-        return run_analog(cap, mode, seed, order=1 + seed % 2, noisy=noisy, minb=minb)
+        return run_analog(cap, mode, seed, order=2 if bug else 1 + seed % 2, noisy=noisy, minb=minb, bug=bug, thr=thr)
 
 
 def search(ctx):
@@ -133,15 +200,21 @@ def search(ctx):
         for mode in ("discarded_weight", "relative"):
             for kind in ("digital", "analog"):
                 plan.append((kind, cap, mode, False))
+    for cap in (3, 4):
+        for thr in (0.0, 1e-9):
+            plan.append(("analog-bug", cap, "discarded_weight", False, thr))
     plan += [("digital", 2, "discarded_weight", True), ("analog", 3, "discarded_weight", True),
              ("analog", 3, "relative", True), ("digital", 3, "relative", True)]
     reps = 1 if ctx.quick else 3
     for rep in range(reps):
-        for (kind, cap, mode, noisy) in plan:
+        for item in plan:
+            kind, cap, mode, noisy = item[:4]
+            thr = item[4] if len(item) > 4 else None
+            bug = kind == "analog-bug"
             seed = int(ctx.rng.integers(0, 10**6))
             minb = 2 if rep == 0 else int(ctx.rng.choice([1, 2]))
             try:
-                worst = whole_run(kind, cap, mode, seed, noisy, minb)
+                worst = whole_run("analog" if bug else kind, cap, mode, seed, noisy, minb, bug=bug, thr=thr)
             except common.HardTimeout:
                 ctx.notes.append(f"whole run timed out: {kind} cap={cap} {mode}")
                 continue
@@ -152,8 +225,8 @@ def search(ctx):
             if worst > bound:
                 ctx.violation(f"run-cap:{kind}", f"{kind} run (trunc_mode={mode}, noisy={noisy}) reached bond dimension {worst} "
                               f"with max_bond_dim={cap}, min_bond_dim={minb}",
-                              {"oracle": "whole_run", "kind": kind, "cap": cap, "mode": mode, "seed": seed, "noisy": noisy,
-                               "minb": minb, "seen": worst})
+                              {"oracle": "whole_run", "kind": "analog" if bug else kind, "cap": cap, "mode": mode, "seed": seed,
+                               "noisy": noisy, "minb": minb, "seen": worst, "bug": bug, "thr": thr})
 
 
 def replay(ctx, data):
@@ -166,8 +239,11 @@ def replay(ctx, data):
     if rp.get("oracle") == "tss":
         i = ranksel.impl_tss_keep(rp["s"], rp["d"], rp["L"], rp["R"], rp["thr"], rp["maxb"])
         return f"kept {i} > {rp['maxb']}" if isinstance(i, int) and i > rp["maxb"] else None
+    if rp.get("oracle") == "truncate":
+        calls, bonds, _ = truncate_trace(rp["L"], rp["chi"], rp["center"], rp["thr"], rp["cap"], 1)
+        return f"bonds {bonds}" if bonds and max(bonds) > rp["cap"] else None
     if rp.get("oracle") == "whole_run":
-        w = whole_run(rp["kind"], rp["cap"], rp["mode"], rp["seed"], rp["noisy"], rp.get("minb", 2))
+        w = whole_run(rp["kind"], rp["cap"], rp["mode"], rp["seed"], rp["noisy"], rp.get("minb", 2), bug=rp.get("bug", False), thr=rp.get("thr"))
         b = max(rp["cap"], rp.get("minb", 2))
         return f"bond {w} > {b}" if w > b else None
     return "re-run the check: " + "; ".join(b["what"] for b in data.get("broken", []))
